@@ -7,7 +7,7 @@ use crate::term::*;
 pub const LIMIT: i64 = 12;
 pub const PRELUDE: &str = "proc pa2 {a b} {return $a$b}; set nonint abc; set arr(1) 1";
 
-pub const FAULTS: [&str; 28] = [
+pub const FAULTS: [&str; 32] = [
     "set q \"unterminated",
     "rec [unclosed",
     "rec $arr(",
@@ -36,6 +36,10 @@ pub const FAULTS: [&str; 28] = [
     "proc pe {args {b 1} a} {return $a}; pe 1 2",
     "proc po3 {a {b 2} c} {return $a}; po3 1 2",
     "proc pd {a {b 2}} {return $a}; pd",
+    "proc pq [list a \\{] {return 1}; pq 1 2",
+    "proc pr [list a {\"x\"y}] {return 1}; pr 1 2",
+    "proc ps [list {a}b c] {return 1}; ps 1 2",
+    "proc pt {p(x) p(y) {p none}} {return 1}; pt 1 2",
 ];
 
 pub fn wrap(rng: &mut Rng, body: &str, k: &mut usize) -> String {
@@ -105,7 +109,7 @@ pub fn gen(tier: &str, seed: u64) -> Gen {
         let refs: Vec<&str> = scripts.iter().map(|s| s.as_str()).collect();
         cases.push(case(LIMIT, &refs, &["g8"]));
     }
-    (cases, vec![("1-4 failing evaluations (28 fault kinds under 0-3 nested contexts of 9 kinds; one history in five with errorInfo/errorCode turned into arrays meanwhile) followed by 4 probes".to_string(), n, false)])
+    (cases, vec![("1-4 failing evaluations (32 fault kinds under 0-3 nested contexts of 9 kinds; one history in five with errorInfo/errorCode turned into arrays meanwhile) followed by 4 probes".to_string(), n, false)])
 }
 
 pub fn run(case: &Term) -> Term {
